@@ -84,11 +84,20 @@ NextApi0 ==
                  /\ (fk = "k2" => \E h \in 1..Len(hist) : hist[h].act = "Install" /\ hist[h].fake = "k1")
                  /\ InstallBegin(T, f, kind, fk, st, n, g)
                  /\ hist' = Append(hist, [act |-> "Install", f |-> f, kind |-> kind, fake |-> fk, site |-> st,
-                                          n |-> n, gate |-> g, fault |-> "none"])
+                                          n |-> n, gate |-> g, fault |-> "none", caught |-> FALSE])
                  /\ UNCHANGED needProbe
            \/ Quiet(PushVerifier(T)) \/ Quiet(\E sz \in PatchSizes : GatePass(T, sz))
            \/ /\ GateRefuse(T)
               /\ hist' = Append(hist, [act |-> "InstallPanic", cls |-> cur[T].gate]) /\ UNCHANGED needProbe
+           \* the same refusal / failure, caught by the caller: the lifetime goes on with the same injector
+           \/ /\ GateRefuseCaught(T) /\ needProbe' = TRUE
+              /\ hist' = Append([hist EXCEPT ![Len(hist)].caught = TRUE], [act |-> "InstallPanic", cls |-> cur[T].gate])
+           \/ /\ "mmap" \in Faults /\ AllocFailCaught(T) /\ needProbe' = TRUE
+              /\ hist' = Append([hist EXCEPT ![Len(hist)].fault = "mmap", ![Len(hist)].caught = TRUE],
+                                [act |-> "InstallPanic", cls |-> "alloc-exhausted"])
+           \/ /\ "mprotect" \in Faults /\ MprotectFailCaught(T) /\ needProbe' = TRUE
+              /\ hist' = Append([hist EXCEPT ![Len(hist)].fault = "mprotect", ![Len(hist)].caught = TRUE],
+                                [act |-> "InstallPanic", cls |-> "mprotect"])
            \/ Quiet(\E id \in TrampIds : AllocOk(T, id))
            \/ /\ "mmap" \in Faults /\ AllocFail(T)
               /\ hist' = Append([hist EXCEPT ![Len(hist)].fault = "mmap"], [act |-> "InstallPanic", cls |-> "alloc-exhausted"])
